@@ -277,6 +277,7 @@ pub fn canonical(file: &File) -> String {
         }
         fn visit_item_impl_mut(&mut self, i: &mut ItemImpl) {
             syn::visit_mut::visit_item_impl_mut(self, i);
+            i.attrs.sort_by_key(ts);
             i.items.sort_by_key(|it| match it {
                 syn::ImplItem::Fn(f) => format!("fn {}", f.sig.ident),
                 syn::ImplItem::Type(t) => format!("type {}", t.ident),
@@ -285,11 +286,46 @@ pub fn canonical(file: &File) -> String {
         }
         fn visit_item_trait_mut(&mut self, i: &mut syn::ItemTrait) {
             syn::visit_mut::visit_item_trait_mut(self, i);
+            i.attrs.sort_by_key(ts);
             i.items.sort_by_key(|it| match it {
                 syn::TraitItem::Fn(f) => format!("fn {}", f.sig.ident),
                 syn::TraitItem::Type(t) => format!("type {}", t.ident),
                 other => ts(other),
             });
+        }
+        fn visit_generics_mut(&mut self, i: &mut syn::Generics) {
+            syn::visit_mut::visit_generics_mut(self, i);
+            // the order of the type parameters of generated types follows first use (see DESIGN C14)
+            let mut v: Vec<syn::GenericParam> = i.params.iter().cloned().collect();
+            v.sort_by_key(ts);
+            i.params = v.into_iter().collect();
+        }
+        fn visit_path_segment_mut(&mut self, i: &mut syn::PathSegment) {
+            syn::visit_mut::visit_path_segment_mut(self, i);
+            if i.ident.to_string().ends_with("Msg") {
+                if let syn::PathArguments::AngleBracketed(a) = &mut i.arguments {
+                    let mut v: Vec<syn::GenericArgument> = a.args.iter().cloned().collect();
+                    v.sort_by_key(ts);
+                    a.args = v.into_iter().collect();
+                }
+            }
+        }
+        fn visit_type_tuple_mut(&mut self, i: &mut syn::TypeTuple) {
+            syn::visit_mut::visit_type_tuple_mut(self, i);
+            // PhantomData<(T2, T0,)> of generated types: parameter order only
+            let simple = i.elems.iter().all(|t| matches!(t, syn::Type::Path(p) if p.qself.is_none() && p.path.segments.len() == 1 && p.path.segments[0].arguments.is_none()));
+            if simple && i.elems.len() >= 2 {
+                let mut v: Vec<syn::Type> = i.elems.iter().cloned().collect();
+                v.sort_by_key(ts);
+                i.elems = v.into_iter().collect();
+                i.elems.push_punct(Default::default());
+            }
+        }
+        fn visit_variant_mut(&mut self, i: &mut syn::Variant) {
+            syn::visit_mut::visit_variant_mut(self, i);
+            if i.ident == "_Phantom" {
+                i.attrs.clear();
+            }
         }
         fn visit_expr_match_mut(&mut self, i: &mut syn::ExprMatch) {
             syn::visit_mut::visit_expr_match_mut(self, i);
@@ -306,6 +342,7 @@ pub fn canonical(file: &File) -> String {
             i.elems = v.into_iter().collect();
         }
         fn visit_item_const_mut(&mut self, i: &mut syn::ItemConst) {
+            syn::visit_mut::visit_item_const_mut(self, i);
             if i.ident.to_string().ends_with("_REPLY_ID") {
                 *i.expr = syn::parse_quote!(0);
             }
